@@ -10,7 +10,10 @@ from engine.hlib import Native, V, pick
 
 KEYSETS = [("a", "b", "c"), ("b", "a", "aa"), ("\U0001F600", "דּ", "a"), ("€", "$", "\u0080"), ("k\"q", "k\\", "k\n")]
 PERMS = [(0, 1, 2), (0, 2, 1), (1, 0, 2), (1, 2, 0), (2, 0, 1), (2, 1, 0)]
-INTS = [7, 0, -1, 1000000]
+INTS = [7, 0, -1, 1000000, 2 ** 53 + 1, 2 ** 60, 10 ** 17 + 1, -(2 ** 63), 10 ** 21, 2 ** 53]
+# Python ints are numbers like any other: beyond 2^53 they are written as the double nearest to them would be (ECMAScript Number::toString)
+BIG_INT_TEXT = {2 ** 53 + 1: "9007199254740992", 2 ** 60: "1152921504606847000", 10 ** 17 + 1: "100000000000000000", -(2 ** 63): "-9223372036854776000",
+                10 ** 21: "1e+21", 2 ** 53: "9007199254740992"}
 # doubles whose ECMAScript form differs from Python's repr (known answers: RFC 8785 appendix B / ECMA-262 Number::toString); None = must be refused
 FLOATS = [(1.0, "1"), (-0.0, "0"), (1e-7, "1e-7"), (1e16, "10000000000000000"), (1.5, "1.5"), (1e21, "1e+21"), (5e-324, "5e-324"), (0.000001, "0.000001"),
           (float("nan"), None), (float("-inf"), None), (float("inf"), None), (1.152921504606847e18, "1152921504606847000"), (-1e-5, "-0.00001"),
@@ -54,7 +57,7 @@ def ref_ser(v):
     if v is False:
         return "false"
     if isinstance(v, int):
-        return str(v)
+        return BIG_INT_TEXT.get(v, str(v))
     if isinstance(v, float):
         for f, text in FLOATS:
             if repr(f) == repr(v):
@@ -79,7 +82,7 @@ def leaf(kind, b, i):
         return STRS[i % len(STRS)]
     if kind == 4:
         return FLOATS[i % NF][0]
-    return INTS[i % len(INTS)]
+    return INTS[(i + 3 * (i // 2)) % len(INTS)]
 
 
 def encode(v):
